@@ -90,8 +90,13 @@ impl Server {
     }
 
     pub fn error_response(status_code_reason_phrase: &'static StatusCodeReasonPhrase, message: String) -> Vec<u8> {
+        Server::error_response_to(METHOD.get, status_code_reason_phrase, message)
+    }
+
+    /// error response to a request whose method is known (no body is sent in reply to HEAD and OPTIONS)
+    pub fn error_response_to(method: &str, status_code_reason_phrase: &'static StatusCodeReasonPhrase, message: String) -> Vec<u8> {
         let error_request = Request {
-            method: METHOD.get.to_string(),
+            method: method.to_string(),
             request_uri: "".to_string(),
             http_version: "".to_string(),
             headers: vec![],
@@ -182,7 +187,7 @@ impl Server {
         if boxed_app_processing.is_err() {
             // a panicking handler must not take the worker thread down with it
             let message = "request handler panicked".to_string();
-            let response = Server::error_response(STATUS_CODE_REASON_PHRASE.n500_internal_server_error, message.clone());
+            let response = Server::error_response_to(&request.method, STATUS_CODE_REASON_PHRASE.n500_internal_server_error, message.clone());
 
             let boxed_stream = stream.write_all(response.borrow());
             if boxed_stream.is_ok() {
@@ -200,7 +205,7 @@ impl Server {
         let app_processing = boxed_app_processing.unwrap();
         if app_processing.is_err() {
             let message = app_processing.as_ref().err().unwrap().to_string();
-            let response = Server::bad_request_response(message.clone());
+            let response = Server::error_response_to(&request.method, STATUS_CODE_REASON_PHRASE.n400_bad_request, message.clone());
 
             let boxed_stream = stream.write_all(response.borrow());
             if boxed_stream.is_ok() {
